@@ -444,7 +444,7 @@ __CPROVER_assigns(*self, E, EL, G_EV, G_HES, G_UBYTE, __CPROVER_object_whole(g_t
 /* [C06:error-state-inert] */ __CPROVER_ensures((RAN && g_old.state == CAT_STATE_ERROR) ==> (AT_HCALLS == 0 && AT_VWCALLS == 0 && AT_VRCALLS == 0 && (self->state == CAT_STATE_ERROR || (E.rd_avail && E.rd_ch == '\n' && p_ack_error_started(self)))))
 /* ---- C08/C09: refusal of request forms the command does not offer (dispatcher) ---- */
 #define PCA_LF     (PCA_BYTE && E.rd_ch == '\n')
-/* [C08,C09:write-dispatch] */ __CPROVER_ensures(PCA_LF ==> (g_old.cmd->only_test ? p_ack_error_started(self) : p_writable(g_old.cmd) ? (p_no_nul_before((const char *)g_oldbuf, g_old.length, H_CAPA) ? (self->state == CAT_STATE_PARSE_WRITE_ARGS && self->index == 0 && self->position == 0 && self->var == &g_old.cmd->var[0]) : p_ack_error_started(self)) : g_old.cmd->write != NULL ? (self->state == CAT_STATE_WRITE_LOOP && self->index == 0) : p_ack_error_started(self)))
+/* [C04,C05,C08,C09:write-dispatch] */ __CPROVER_ensures(PCA_LF ==> (g_old.cmd->only_test ? p_ack_error_started(self) : p_writable(g_old.cmd) ? (p_no_nul_before((const char *)g_oldbuf, g_old.length, H_CAPA) ? (self->state == CAT_STATE_PARSE_WRITE_ARGS && self->index == 0 && self->position == 0 && self->var == &g_old.cmd->var[0]) : p_ack_error_started(self)) : g_old.cmd->write != NULL ? (self->state == CAT_STATE_WRITE_LOOP && self->index == 0) : p_ack_error_started(self)))
 #define CF_STEP    (RAN && g_old.state == CAT_STATE_COMMAND_FOUND)
 /* [C08,C09:run-dispatch]  */ __CPROVER_ensures((CF_STEP && g_old.cmd_type == CAT_CMD_TYPE_RUN) ==> ((!g_old.cmd->only_test && g_old.cmd->run != NULL) ? self->state == CAT_STATE_RUN_LOOP : p_ack_error_started(self)))
 /* [C08,C09:read-dispatch] */ __CPROVER_ensures((CF_STEP && g_old.cmd_type == CAT_CMD_TYPE_READ) ==> ((!g_old.cmd->only_test && (p_readable(g_old.cmd) || g_old.cmd->read != NULL)) ? (p_reformat_read(self) && (self->state == CAT_STATE_FORMAT_READ_ARGS) == (p_readable(g_old.cmd) && !p_ack_error_started(self))) : p_ack_error_started(self)))
